@@ -29,6 +29,15 @@ DENSE = "naunet/templates/cvode/src/naunet_jac.cpp.j2"
 ODEINT = "naunet/templates/odeint/src/naunet_ode.cpp.j2"
 
 
+def jac_writers(ctx, rule):
+    """In the generated Jacobian functions only the reviewed statements store into the matrix (dense IJth / CSR data, rowptrs,
+    colvals / odeint j) and the working copy of the abundances is the abundance vector itself (shared with C03)."""
+    from .. import cwriters as W
+    n = W.check_writers(ctx, rule, [W.JAC, W.ODE], W.JAC_ARRAYS, "the Jacobian storage / the abundance vector the entries read",
+                        funcs={"Jac", "JacKernel", "InitJac", "Jac::operator()"})
+    ctx.floor(rule, "reviewed static writes in Jacobian functions", n, 8)
+
+
 def check(ctx):
     m = model(ctx.tree)
     ctx.saw(FILE, "TemplateLoader._prepare_ode_content")
@@ -145,6 +154,8 @@ def check(ctx):
             ctx.check(len(txt.strip()) > 0 and txt.lstrip()[:1] in "+-" and txt != "", "R6", f"{site_key(s)}:nonempty", where(s),
                       "every store appends a non-empty signed term, so a slot equals '0.0' iff no store reached it", found=txt)
     ctx.floor("R6", "jacobian stores", n6, 5)
+    jac_writers(ctx, "R7")
+
 
 
 def _pair(ctx, m, kind, rs, js):
@@ -409,6 +420,8 @@ def _r5(ctx, m):
 
 T = FILE
 MUTANTS = [
+    {"name": "cusparse-kernel-drops-system-offset", "file": "naunet/templates/cvode/src/naunet_jac.cpp.j2", "old": "data[jistart + ", "new": "data[", "rules": ["R7"]},
+    {"name": "odeint-jac-clips-abundances", "file": "naunet/templates/odeint/src/naunet_ode.cpp.j2", "old": "        y[i] = abund[i];\n    }\n\n    {% set components = network.reactions + network.grains + network.heating + network.cooling -%}\n    {% for key, _ in components | collect_variable_items(\"params\") -%}", "new": "        y[i] = fmax(abund[i], 0.0);\n    }\n\n    {% set components = network.reactions + network.grains + network.heating + network.cooling -%}\n    {% for key, _ in components | collect_variable_items(\"params\") -%}", "count": 2, "rules": ["R7"]},
     {"name": "remove-wrong-index", "file": T, "old": "for ri in rspecidx:\n                    rsymcopy = rsym.copy()\n                    rsymcopy.remove(y[ri])\n                    term = f\" - ",
      "new": "for ri in rspecidx:\n                    rsymcopy = rsym.copy()\n                    rsymcopy.remove(y[specidx])\n                    term = f\" - ", "rules": ["R1"]},
     {"name": "col-loop-set", "file": T, "old": "            for specidx in pspecidx:\n                for ri in rspecidx:", "new": "            for specidx in pspecidx:\n                for ri in set(rspecidx):", "rules": ["R1"]},
